@@ -10,7 +10,10 @@ for mid in sys.argv[1:]:
         m = {'property': prop, 'summary': '(meta.json unreadable: %s)' % e}
     if 'confirmed_by_me' in m:
         continue
-    log = open('/tmp/seeded-out/confirm-%s.log' % prop).read()
+    log = ''
+    for pat in ('/tmp/seeded-out/confirm-%s.log', '/tmp/seeded-out/confirm2-%s.log'):
+        if os.path.exists(pat % prop):
+            log += open(pat % prop).read()
     sec = log.split('== ' + mid)[1].split('== ')[0].strip() if ('== ' + mid) in log else ''
     out = {'property': m.get('property', prop), 'breaks': m.get('summary'), 'needs': m.get('needs'), 'files': m.get('files'),
            'author': 'fresh sub-agent given only the property text and a scratch worktree', 'agent_ran': m.get('ran'),
